@@ -134,6 +134,11 @@ class BitString(Type):
         return clean_value == clean_default
 
     def encode(self, data, encoded, values=None):
+        if self.has_named_bits:
+            # Trailing zero bits are not part of the value of a bit
+            # string with named bits (X.690 11.2.2).
+            data = clean_bit_string_value(data, self.has_named_bits)
+
         number_of_bytes, number_of_rest_bits = divmod(data[1], 8)
         data = bytearray(data[0])
 
